@@ -393,6 +393,9 @@ func generate(r *vRand, idx int) *scen {
 func (g *gen) forced() *scen {
 	r := g.r
 	tag := "gm1"
+	if r.Intn(2) == 0 {
+		g.emit("W 1") // delegate with one Go type per instrument kind
+	}
 	g.prePhase()
 	otherPlain := func() {
 		// the providers that are not gated in this scenario are installed plainly at a random moment, or never
@@ -447,6 +450,13 @@ func (g *gen) forced() *scen {
 				} else if tag != "plain" {
 					g.emit("IM")
 				}
+			case x < 7:
+				// a meter (tracer) first looked up while the installation is parked
+				if gatedTracer && g.nT < 4 {
+					g.newTracer()
+				} else if !gatedTracer && g.nM < 5 {
+					g.newMeter()
+				}
 			default:
 				g.anyOp()
 			}
@@ -457,7 +467,15 @@ func (g *gen) forced() *scen {
 	}
 	g.emit("F")
 	g.late = false
+	lateMeters := append([]int(nil), g.lateMeters...)
 	g.promote()
+	// every meter first looked up during the installation gets an instrument (measured by postPhase)
+	for _, m := range lateMeters {
+		kind := r.Intn(8)
+		g.emit("K %d %d %d", g.nI, m, kind)
+		g.insts = append(g.insts, gInst{g.nI, m, kind})
+		g.nI++
+	}
 	if gatedTracer && r.Intn(2) == 0 {
 		g.emit("IM")
 	} else if !gatedTracer && r.Intn(2) == 0 {
@@ -472,6 +490,9 @@ func (g *gen) forced() *scen {
 
 func (g *gen) stress() *scen {
 	r := g.r
+	if r.Intn(2) == 0 {
+		g.emit("W 1")
+	}
 	g.prePhase()
 	nth := 2 + r.Intn(3)
 	installer := r.Intn(nth)
